@@ -125,6 +125,21 @@ NEEDS = {
  "C19-6": "tuple extractor metadata passes the default content type to the body extractor: non-default content type + Path/Query before TypedBody",
  "C20-5": "list headers split on ',' only and trimmed on the left only: 'Upgrade , keep-alive' / 'websocket , x' (OWS before the comma)",
  "C20-6": "hand-written AsyncRead lends hyper the filled part of the ReadBuf and then advances: read_exact-style handlers when a record arrives in more than one segment",
+ # ---- round 4 (HTTP/2 / TLS only, error paths, repetition, defaults, lifecycles, macro-generated paths)
+ "C01-7": "overlap flag overwritten per iteration: three ranges on one method+path, the third overlapping an earlier one but not the one registered just before it",
+ "C01-8": "per-connection memo of the last route keyed by (method, raw path, version triple): 2.0.0 then 2.0.0-rc.1 (or the reverse) back to back on one keep-alive connection",
+ "C02-7": "variable-name check dropped in the wildcard arm: /{path}/{path:.*}",
+ "C02-8": "handler list kept sorted, new range compared with neighbours only, successor read at the wrong index: 2.0.0.. then 1.0.0..3.0.0",
+ "C04-7": "Allow list cached per node on the first 405: two 405s on one path at versions with different method sets",
+ "C04-8": "404/405 decision taken at the wildcard's parent node: a request for the bare prefix of a wildcard route with a method the wildcard route does not serve",
+ "C06-7": "tags sorted by lower-cased name (stable sort over a hash-ordered list): two tags equal ignoring case, documents differ between generations",
+ "C06-8": "reference collector walks only the children of a referenced definition: response header typed as a newtype over an enum used nowhere else",
+ "C09-7": "peer addresses queued at TCP accept, popped at TLS handshake completion: overlapping handshakes completing out of order",
+ "C09-8": "a zero-length body frame treated as end of body: HTTP/2 request with an empty DATA frame before the end",
+ "C16-7": "server keeps its own handle on the request body while the handler runs: HTTP/1, Cancel mode, an endpoint that ignores a 16-28 KiB (or Expect: 100-continue) body, client disconnects - handler not cancelled",
+ "C16-8": "TLS negotiation errors other than InvalidData/UnexpectedEof are yielded to the accept loop, which stops accepting: one RST during a TLS handshake",
+ "C17-7": "detached handler task no longer holds its own wait-group member: handler that gives up its RequestContext early, client gone, shutdown requested",
+ "C17-8": "connections that negotiated h2 by ALPN are spawned without the graceful-shutdown watcher: an HTTP/2-over-TLS client that stays connected blocks shutdown for ever",
 }
 
 def main():
